@@ -57,11 +57,12 @@ Print Assumptions C20_handout.
 
 (* the code as it is: after push; update; get_python_object; pop_state the cached object is handed
    out although the working tree extracts to something else (finding F12) *)
+(* cinit / crun fx / cstep fx = init / run fx / step fx of the small concrete library of IndexExamples.v
+   (master m1: "a = 1 .type = int"); hist_f12 = [Push; Update "a = 2"; GetPy; Pop] *)
 Theorem C20_refuted_pop_stale :
-  exists s0, init cpy cfetch cextract m1 = OOk s0 /\
-  let s := run cpy cfetch cextract cformat m1 false [Push; Update u2 None true; GetPy false; Pop] s0 in
-  exists p q, snd (step cpy cfetch cextract cformat m1 false s (GetPy false)) = OPy p false
-              /\ cextract (working s) = OOk q /\ p <> q.
+  exists s0, cinit = OOk s0 /\
+  let s := crun false hist_f12 s0 in
+  exists p q, snd (cstep false s (GetPy false)) = OPy p false /\ cextract (working s) = OOk q /\ p <> q.
 Proof. exact refuted_pop_stale. Qed.
 Print Assumptions C20_refuted_pop_stale.
 
@@ -115,9 +116,9 @@ Example C20_run_ok_example : exists s0, init cpy cfetch cextract m1 = OOk s0 /\ 
 Proof. exact run_ok_example. Qed.
 (* the repaired machine on the F12 history hands out a fresh extraction *)
 Example C20_fixed_pop_fresh :
-  exists s0, init cpy cfetch cextract m1 = OOk s0 /\
-  let s := run cpy cfetch cextract cformat m1 true [Push; Update u2 None true; GetPy false; Pop] s0 in
-  exists p, snd (step cpy cfetch cextract cformat m1 true s (GetPy false)) = OPy p true /\ cextract (working s) = OOk p.
+  exists s0, cinit = OOk s0 /\
+  let s := crun true hist_f12 s0 in
+  exists p, snd (cstep true s (GetPy false)) = OPy p true /\ cextract (working s) = OOk p.
 Proof. exact fixed_pop_fresh. Qed.
 (* a balanced history with a nested push/pop, and the restored tree *)
 Example C20_balanced_example :
